@@ -27,7 +27,7 @@ fn fmt_stub2(_a: core::fmt::Arguments<'_>) -> String {
 #[kani::stub(std::fmt::format, fmt_stub2)]
 fn c08_fragment_retry() {
     let cb = 16u32;
-    let info = mk_info(cb, 4, 1u64 << 42, 9, Some((9, 1024)), Some((9, 1024)), false, false, false);
+    let info = mk_info(cb, 4, 1u64 << 42, 9, Some((10, 2048)), Some((9, 1024)), false, false, false);
     let mut env = KEnv::new(info);
     env.rt_entry = RefTableEntry(0x30000);
     let cs = 1u64 << cb;
